@@ -481,12 +481,16 @@ class Subject:
     keyword arguments)."""
 
     def __init__(self, pyname, make, unpack, pack, calcsize=None, make_base=None, accept_tail=True, pack_into=None,
-                 unpack_at=None):
+                 unpack_at=None, unpack_version=None, cls=None):
         self.pyname, self.make, self.unpack, self.pack, self.calcsize = pyname, make, unpack, pack, calcsize
         self.make_base = make_base or make
         self.accept_tail = accept_tail
         self.pack_into = pack_into
         self.unpack_at = unpack_at          # unpack_at(buffer, offset, form) -> (object, bytes consumed)
+        # unpack_version(buffer, offset, version, form) -> (object, bytes consumed): unpack() told the message version the
+        # header carries (what the file readers do); form 0 positional, 1 keywords, 2 keywords in the file readers' order
+        self.unpack_version = unpack_version
+        self.cls = cls                      # the Python class itself (message payloads: needed to frame / recognise it)
 
 
 def class_subject(cls, make_base=None, pack_kwargs=None):
@@ -510,7 +514,19 @@ def class_subject(cls, make_base=None, pack_kwargs=None):
         o = cls()
         n = o.unpack(buffer, offset) if form == 0 else o.unpack(buffer=buffer, offset=offset)
         return o, n
-    return Subject(cls.__name__, cls, unpack, pack, calcsize, make_base, pack_into=pack_into, unpack_at=unpack_at)
+
+    def unpack_version(buffer, offset, version, form):
+        o = cls()
+        if form == 0:
+            n = o.unpack(buffer, offset, version)
+        elif form == 1:
+            n = o.unpack(buffer, offset, message_version=version)
+        else:
+            n = o.unpack(buffer=buffer, offset=offset, message_version=version)
+        return o, n
+    versioned = unpack_version if 'message_version' in getattr(getattr(cls.unpack, '__code__', None), 'co_varnames', ()) else None
+    return Subject(cls.__name__, cls, unpack, pack, calcsize, make_base, pack_into=pack_into, unpack_at=unpack_at,
+                   unpack_version=versioned, cls=cls)
 
 
 def adapter_subject(name, adapter, make=None):
